@@ -3,22 +3,478 @@ C02, PBF: the `while (!ids.empty())` loop of `decode_dense_nodes` over the array
 (exact integer deltas, any granularity / offsets / date granularity, version -1, arrays omitted when all-default).
 -/
 import Osmium.Lemmas.PbfSpecDenseDefs
+import Osmium.Lemmas.PbfDense3
 
 namespace Osmium.Pbf
 
 open Osmium.Wire Osmium.Osm Osmium.PbfMsg
 open Osmium.PbfSpec (Choices)
+open Osmium.StringTable (Table lookup)
+
+/-! ### the cursor after some nodes were consumed -/
+
+/-- which arrays the encoder left out (fixed for the whole group) -/
+structure SpecOmit where
+  tags : Bool
+  versions : Bool
+  timestamps : Bool
+  changesets : Bool
+  uids : Bool
+  userSids : Bool
+  visibles : Bool
+
+def specOmitOf (ch : Choices) (hist : Bool) (ns : List (Meta × Location)) : SpecOmit :=
+  let ms := ns.map (·.1)
+  let od := ch.omitDefaults
+  { tags := od && ms.all (·.tags.isEmpty),
+    versions := od && ms.all (·.version == 0),
+    timestamps := od && ms.all (·.timestamp == 0),
+    changesets := od && ms.all (·.changeset == 0),
+    uids := od && ms.all (·.uid == 0),
+    userSids := od && ms.all (·.user.isEmpty),
+    visibles := (od || !hist) && ms.all (·.visible) }
+
+/-- the loop cursor for the nodes still to come -/
+def specCurOf (ch : Choices) (table : List Bytes) (om : SpecOmit) (pv : Prev) (ns : List (Meta × Location)) : DenseCur :=
+  let ms := ns.map (·.1)
+  { ids := (PbfSpec.delta pv.id (ms.map (·.id))).map zigzag64,
+    lats := (PbfSpec.delta pv.lat (ns.map fun n => PbfSpec.coord ch.granularity ch.latOffset n.2.y)).map zigzag64,
+    lons := (PbfSpec.delta pv.lon (ns.map fun n => PbfSpec.coord ch.granularity ch.lonOffset n.2.x)).map zigzag64,
+    tags := if om.tags then [] else
+      ms.flatMap fun m => (m.tags.flatMap fun t => [PbfSpec.idx table t.key, PbfSpec.idx table t.value]) ++ [0],
+    versions := if om.versions then [] else
+      ms.map fun m => PbfSpec.u64 (if m.version == 0 && ch.versionMinusOne then -1 else m.version),
+    timestamps := if om.timestamps then [] else
+      (PbfSpec.delta pv.ts (ms.map fun m => PbfSpec.stamp ch.dateGranularity m.timestamp)).map zigzag64,
+    changesets := if om.changesets then [] else
+      (PbfSpec.delta pv.cs (ms.map fun m => (m.changeset : Int))).map zigzag64,
+    uids := if om.uids then [] else
+      (PbfSpec.delta pv.uid (ms.map fun m => (m.uid : Int))).map PbfSpec.zigzag32,
+    userSids := if om.userSids then [] else
+      (PbfSpec.delta pv.sid (ms.map fun m => (PbfSpec.idx table m.user : Int))).map PbfSpec.zigzag32,
+    visibles := if om.visibles then [] else ms.map fun m => if m.visible then 1 else 0,
+    dId := pv.id, dLat := pv.lat, dLon := pv.lon, dUid := pv.uid, dUserSid := pv.sid, dChangeset := pv.cs,
+    dTimestamp := pv.ts }
+
+theorem specDenseCur_eq (ch : Choices) (table : List Bytes) (hist : Bool) (ns : List (Meta × Location)) :
+    specDenseCur ch table hist ns = specCurOf ch table (specOmitOf ch hist ns) {} ns := rfl
+
+def specNext (ch : Choices) (table : List Bytes) (om : SpecOmit) (pv : Prev) (n : Meta × Location) : Prev :=
+  { id := n.1.id,
+    lat := PbfSpec.coord ch.granularity ch.latOffset n.2.y,
+    lon := PbfSpec.coord ch.granularity ch.lonOffset n.2.x,
+    ts := if om.timestamps then pv.ts else PbfSpec.stamp ch.dateGranularity n.1.timestamp,
+    cs := if om.changesets then pv.cs else (n.1.changeset : Int),
+    uid := if om.uids then pv.uid else (n.1.uid : Int),
+    sid := if om.userSids then pv.sid else (PbfSpec.idx table n.1.user : Int) }
+
+/-- what the 32-bit delta arrays need of the previous values -/
+def SpecPrevOk (pv : Prev) : Prop :=
+  (0 ≤ pv.uid ∧ pv.uid < (2:Int)^31) ∧ (0 ≤ pv.sid ∧ pv.sid < (2:Int)^31)
+
+/-- an omitted array means that the node has the default value -/
+def SpecDefault (om : SpecOmit) (m : Meta) : Prop :=
+  (om.tags = true → m.tags = []) ∧ (om.versions = true → m.version = 0) ∧ (om.timestamps = true → m.timestamp = 0) ∧
+  (om.changesets = true → m.changeset = 0) ∧ (om.uids = true → m.uid = 0) ∧ (om.userSids = true → m.user = []) ∧
+  (om.visibles = true → m.visible = true)
+
+/-! ### the per-array parts of one iteration -/
+
+theorem spec_wrap64_delta (pv x : Int) (h : IdOk x) : wrap64 (pv + unzigzag64 (zigzag64 (x - pv))) = x := by
+  rw [unzigzag_zigzag]
+  have : pv + (x - pv) = x := by omega
+  rw [this]
+  exact Delta.swrap64_id x h.1 h.2
+
+theorem spec_ds_version (o vm : Bool) (v : Nat) (rest : List Nat) (hv : v < 2 ^ 31) (h0 : o = true → v = 0) :
+    dsVersion (if o then [] else u64 (if (v == 0 && vm) = true then -1 else (v : Int)) :: rest) =
+      some (v, if o then [] else rest) := by
+  cases o
+  · simp only [Bool.false_eq_true, ↓reduceIte, dsVersion]
+    by_cases h : (v == 0 && vm) = true
+    · have e : toInt32 (u64 (-1)) = -1 := by decide
+      simp only [h, ↓reduceIte, e]
+      simp only [Bool.and_eq_true, beq_iff_eq] at h
+      simp [versionOf, h.1]
+    · simp only [h, Bool.false_eq_true, ↓reduceIte]
+      rw [u64_nat v (by simp only [Nat.reducePow] at *; omega), toInt32_small v hv, versionOf_nat]
+      rfl
+  · simp [dsVersion, h0 rfl]
+
+theorem spec_ds_changeset (o : Bool) (pv : Int) (cs : Nat) (rest : List Nat) (hc : cs < 2 ^ 32) (h0 : o = true → cs = 0) :
+    dsChangeset pv (if o then [] else zigzag64 ((cs : Int) - pv) :: rest) =
+      some (cs, if o then [] else rest, if o then pv else (cs : Int)) := by
+  cases o
+  · have hid : IdOk (cs : Int) := by unfold IdOk; simp only [Int.reducePow, Nat.reducePow] at *; omega
+    simp [dsChangeset, spec_wrap64_delta pv cs hid, changesetOf_nat cs hc]
+  · simp [dsChangeset, h0 rfl]
+
+theorem spec_ds_timestamp (o : Bool) (dg pv : Int) (ts : Nat) (rest : List Nat) (hdg : 0 < dg ∧ dg < (2:Int) ^ 31)
+    (hc : ts < 2 ^ 32) (hr : dg ∣ 1000 * (ts : Int)) (h0 : o = true → ts = 0) :
+    dsTimestamp dg pv (if o then [] else zigzag64 (PbfSpec.stamp dg ts - pv) :: rest) =
+      (ts, if o then [] else rest, if o then pv else PbfSpec.stamp dg ts) := by
+  cases o
+  · have hb := spec_stamp_bound dg ts hdg.1 hc
+    have hid : IdOk (PbfSpec.stamp dg ts) := by unfold IdOk; simp only [Int.reducePow, Nat.reducePow] at *; omega
+    simp [dsTimestamp, spec_wrap64_delta pv _ hid, spec_convTimestamp_stamp dg ts hdg hc hr]
+  · simp [dsTimestamp, h0 rfl]
+
+theorem spec_wrap64_delta32 (pv x : Int) (hp1 : 0 ≤ pv) (hp2 : pv < (2:Int)^31) (hx1 : 0 ≤ x) (hx2 : x < (2:Int)^31) :
+    wrap64 (pv + unzigzag32 (zigzag32 (x - pv))) = x := by
+  rw [unzigzag32_zigzag32 _ (by simp only [Int.reducePow] at *; omega) (by simp only [Int.reducePow] at *; omega)]
+  have : pv + (x - pv) = x := by omega
+  rw [this]
+  exact Delta.swrap64_id x (by simp only [Int.reducePow] at *; omega) (by simp only [Int.reducePow] at *; omega)
+
+theorem spec_ds_uid (o : Bool) (pv : Int) (uid : Nat) (rest : List Nat) (hp1 : 0 ≤ pv) (hp2 : pv < (2:Int)^31)
+    (hc : uid < 2 ^ 31) (h0 : o = true → uid = 0) :
+    dsUid pv (if o then [] else zigzag32 ((uid : Int) - pv) :: rest) =
+      (uid, if o then [] else rest, if o then pv else (uid : Int)) := by
+  cases o
+  · have e : toInt32 (u64 (uid : Int)) = (uid : Int) := by
+      rw [u64_nat uid (by simp only [Nat.reducePow] at *; omega), toInt32_small uid hc]
+    have w := spec_wrap64_delta32 pv uid hp1 hp2 (by omega) (by simp only [Int.reducePow, Nat.reducePow] at *; omega)
+    simp [dsUid, w, e, uidOf_nat]
+  · simp [dsUid, h0 rfl]
+
+theorem spec_ds_visible (o vis : Bool) (rest : List Nat) (h0 : o = true → vis = true) :
+    dsVisible (if o then [] else (if vis then 1 else 0) :: rest) = (vis, if o then [] else rest) := by
+  cases o
+  · cases vis <;> simp [dsVisible] <;> decide
+  · simp [dsVisible, h0 rfl]
+
+theorem spec_ds_user (o : Bool) (T : List Bytes) (pv : Int) (sid : Nat) (user : Bytes) (rest : List Nat)
+    (hp1 : 0 ≤ pv) (hp2 : pv < (2:Int)^31) (hc : sid < 2 ^ 31) (hu : T[sid]? = some user) (h0 : o = true → user = []) :
+    dsUser T pv (if o then [] else zigzag32 ((sid : Int) - pv) :: rest) =
+      some (user, if o then [] else rest, if o then pv else (sid : Int)) := by
+  cases o
+  · have w := spec_wrap64_delta32 pv sid hp1 hp2 (by omega) (by simp only [Int.reducePow, Nat.reducePow] at *; omega)
+    simp [dsUser, w, lookup_nat, hu]
+  · simp [dsUser, h0 rfl]
+
+/-! ### tags -/
+
+theorem spec_denseTags_params (p q : Params) (h : p.strings = q.strings) :
+    ∀ (fuel : Nat) (ts : List Nat), denseTags p fuel ts = denseTags q fuel ts
+  | 0, ts => by simp [denseTags]
+  | f + 1, [] => by simp [denseTags]
+  | f + 1, [k] => by simp [denseTags, h]
+  | f + 1, k :: v :: ts => by simp [denseTags, h, spec_denseTags_params p q h f ts]
+
+theorem spec_tags_lookup (table : List Bytes) : ∀ (tags : List Tag),
+    (∀ s ∈ tags.flatMap (fun t => [t.key, t.value]), TableOk table s) →
+    (tags.flatMap fun t => [PbfSpec.idx table t.key, PbfSpec.idx table t.value]).map (fun i => table[i]?) =
+        (tags.flatMap fun tg => [tg.key, tg.value]).map some ∧
+      ∀ i ∈ (tags.flatMap fun t => [PbfSpec.idx table t.key, PbfSpec.idx table t.value]), 0 < i ∧ i < 2 ^ 31
+  | [], _ => by simp
+  | t :: tags, h => by
+    have hk := h t.key (by simp)
+    have hv := h t.value (by simp)
+    have ih := spec_tags_lookup table tags (fun s hs => h s (by
+      simp only [List.flatMap_cons, List.mem_append]; exact Or.inr hs))
+    constructor
+    · simp only [List.flatMap_cons, List.map_append, List.map_cons, List.map_nil, hk.2.2, hv.2.2, ih.1]
+    · intro i hi
+      simp only [List.flatMap_cons, List.mem_append, List.mem_cons, List.not_mem_nil, or_false] at hi
+      rcases hi with (rfl | rfl) | hi
+      · exact ⟨hk.1, hk.2.1⟩
+      · exact ⟨hv.1, hv.2.1⟩
+      · exact ih.2 i hi
+
+theorem spec_ds_tags (o : Bool) (p : Params) (tags : List Tag) (rest : List Nat)
+    (ht : ∀ s ∈ tags.flatMap (fun t => [t.key, t.value]), TableOk p.strings s) (h0 : o = true → tags = []) :
+    dsTags p (if o then [] else
+      ((tags.flatMap fun t => [PbfSpec.idx p.strings t.key, PbfSpec.idx p.strings t.value]) ++ [0]) ++ rest) =
+      some (tags, if o then [] else rest) := by
+  cases o
+  · obtain ⟨hres, hkb⟩ := spec_tags_lookup p.strings tags ht
+    simp only [Bool.false_eq_true, ↓reduceIte]
+    generalize (tags.flatMap fun (t : Tag) => [PbfSpec.idx p.strings t.key, PbfSpec.idx p.strings t.value]) = kv at hres hkb ⊢
+    unfold dsTags
+    have hne : ((kv ++ [0]) ++ rest).isEmpty = false := by simp
+    rw [hne]
+    simp only [Bool.false_eq_true, ↓reduceIte]
+    rw [spec_denseTags_params p { strings := p.strings } rfl]
+    have hmap : (kv ++ [0]).map (fun i => u64 (toInt32 i)) = kv ++ [0] := by
+      conv => rhs; rw [← List.map_id (kv ++ [0])]
+      apply List.map_congr_left
+      intro i hi
+      have hi31 : i < 2 ^ 31 := by
+        rcases List.mem_append.mp hi with hi | hi
+        · exact (hkb i hi).2
+        · simp at hi; subst hi; decide
+      rw [toInt32_small i hi31, u64_nat i (by simp only [Nat.reducePow] at *; omega)]
+      rfl
+    have hl2 : kv.length = 2 * tags.length := by
+      have h1 := congrArg List.length hres
+      simp only [List.length_map] at h1
+      rw [h1, flatMap_pair_length]
+    have hlen : tags.length + 1 ≤ ((kv ++ [0]) ++ rest).length := by
+      simp only [List.length_append, List.length_cons, List.length_nil]
+      omega
+    generalize ((kv ++ [0]) ++ rest).length = fuel at hlen
+    rw [← hmap]
+    exact denseTags_group p.strings tags _ rest fuel hres hkb hlen
+  · simp [dsTags, h0 rfl]
+
+/-! ### one iteration -/
+
+theorem spec_denseIter_node (ch : Choices) (hch : ChoicesOk ch) (table : List Bytes) (om : SpecOmit) (pv : Prev)
+    (m : Meta) (l : Location) (rest : List (Meta × Location))
+    (hn : ObjRep ch (.node m l)) (htab : ∀ s ∈ PbfSpec.stringsOf (.node m l), TableOk table s)
+    (hdef : SpecDefault om m) (hpv : SpecPrevOk pv) :
+    denseIter (specParams ch table) (specCurOf ch table om pv ((m, l) :: rest)) =
+      some (specCurOf ch table om (specNext ch table om pv (m, l)) rest, .node m l) := by
+  obtain ⟨⟨hd, hid, hst, hstr⟩, hl, hvis⟩ := hn
+  obtain ⟨hv, hui, hts, hcs⟩ := hd
+  obtain ⟨d1, d2, d3, d4, d5, d6, d7⟩ := hdef
+  obtain ⟨hpuid, hpsid⟩ := hpv
+  have tu : TableOk table m.user := htab m.user (by simp [PbfSpec.stringsOf])
+  have tt : ∀ s ∈ m.tags.flatMap (fun t => [t.key, t.value]), TableOk table s := fun s hs =>
+    htab s (by simp only [PbfSpec.stringsOf, List.mem_cons]; exact Or.inr hs)
+  simp only [denseIter, specCurOf, List.map_cons, PbfSpec.delta, List.flatMap_cons, specParams, spec_u64, spec_zigzag32]
+  have e1 := spec_ds_version om.versions ch.versionMinusOne m.version
+    (List.map (fun (m : Meta) => u64 (if (m.version == 0 && ch.versionMinusOne) = true then -1 else (m.version : Int)))
+      (List.map (fun x => x.fst) rest)) hv d2
+  have e2 := spec_ds_changeset om.changesets pv.cs m.changeset
+    (List.map zigzag64 (PbfSpec.delta (m.changeset : Int) (List.map (fun (m : Meta) => (m.changeset : Int)) (List.map (fun x => x.fst) rest))))
+    hcs d4
+  have e3 := spec_ds_timestamp om.timestamps ch.dateGranularity pv.ts m.timestamp
+    (List.map zigzag64 (PbfSpec.delta (PbfSpec.stamp ch.dateGranularity m.timestamp)
+      (List.map (fun (m : Meta) => PbfSpec.stamp ch.dateGranularity m.timestamp) (List.map (fun x => x.fst) rest))))
+    hch.dgran hts hst d3
+  have e4 := spec_ds_uid om.uids pv.uid m.uid
+    (List.map zigzag32 (PbfSpec.delta (m.uid : Int) (List.map (fun (m : Meta) => (m.uid : Int)) (List.map (fun x => x.fst) rest))))
+    hpuid.1 hpuid.2 hui d5
+  have e5 := spec_ds_visible om.visibles m.visible
+    (List.map (fun (m : Meta) => if m.visible = true then 1 else 0) (List.map (fun x => x.fst) rest)) d7
+  have e6 := spec_ds_user om.userSids table pv.sid (PbfSpec.idx table m.user) m.user
+    (List.map zigzag32 (PbfSpec.delta (PbfSpec.idx table m.user : Int)
+      (List.map (fun (m : Meta) => (PbfSpec.idx table m.user : Int)) (List.map (fun x => x.fst) rest))))
+    hpsid.1 hpsid.2 tu.2.1 tu.2.2 d6
+  have e7 := spec_ds_tags om.tags (specParams ch table) m.tags
+    (List.flatMap (fun (m : Meta) => List.flatMap (fun (t : Tag) => [PbfSpec.idx table t.key, PbfSpec.idx table t.value]) m.tags ++ [0])
+      (List.map (fun x => x.fst) rest)) tt d1
+  simp only [specParams] at e7
+  rw [e1, e2, e3, e4, e5, e6, e7]
+  have ilat : IdOk (PbfSpec.coord ch.granularity ch.latOffset l.y) := by
+    have := spec_coord_bound ch.granularity ch.latOffset l.y hch.gran.1 hch.latOff hl.2
+    unfold IdOk; simp only [Int.reducePow] at *; omega
+  have ilon : IdOk (PbfSpec.coord ch.granularity ch.lonOffset l.x) := by
+    have := spec_coord_bound ch.granularity ch.lonOffset l.x hch.gran.1 hch.lonOff hl.1
+    unfold IdOk; simp only [Int.reducePow] at *; omega
+  have w1 := spec_wrap64_delta pv.id m.id hid
+  have w2 := spec_wrap64_delta pv.lat _ ilat
+  have w3 := spec_wrap64_delta pv.lon _ ilon
+  have hloc : (if m.visible = true then
+      Location.mk (convCoord ch.granularity ch.lonOffset (PbfSpec.coord ch.granularity ch.lonOffset l.x))
+        (convCoord ch.granularity ch.latOffset (PbfSpec.coord ch.granularity ch.latOffset l.y))
+      else Location.undefined) = l := by
+    cases hvv : m.visible
+    · simp only [hvv, Bool.false_eq_true, ↓reduceIte] at hvis ⊢
+      exact hvis.symm
+    · simp only [hvv, ↓reduceIte] at hvis ⊢
+      obtain ⟨_, hx, hy⟩ := hvis
+      rw [spec_convCoord_coord _ _ _ hch.gran.1 hch.lonOff hl.1 hx, spec_convCoord_coord _ _ _ hch.gran.1 hch.latOff hl.2 hy]
+  simp only [Option.bind_some, w1, w2, w3, hloc, specNext]
+  obtain ⟨o1, o2, o3, o4, o5, o6, o7⟩ := om
+  cases o3 <;> cases o4 <;> cases o5 <;> cases o6 <;> rfl
+
+theorem spec_prevOk_next (ch : Choices) (table : List Bytes) (om : SpecOmit) (pv : Prev) (m : Meta) (l : Location)
+    (hd : MetaInDomain m) (htu : TableOk table m.user) (hpv : SpecPrevOk pv) :
+    SpecPrevOk (specNext ch table om pv (m, l)) := by
+  obtain ⟨hv, hui, hts, hcs⟩ := hd
+  obtain ⟨h1, h2⟩ := hpv
+  have := htu.2.1
+  constructor
+  · simp only [specNext]; split
+    · exact h1
+    · simp only [Int.reducePow, Nat.reducePow] at *; omega
+  · simp only [specNext]; split
+    · exact h2
+    · simp only [Int.reducePow, Nat.reducePow] at *; omega
+
+/-! ### the whole loop -/
+
+theorem spec_denseLoop_rows (ch : Choices) (hch : ChoicesOk ch) (table : List Bytes) (om : SpecOmit) (h : Bool)
+    (hh : h = true ∨ (om.versions = true ∧ om.timestamps = true ∧ om.changesets = true ∧ om.uids = true ∧
+      om.userSids = true ∧ om.visibles = true)) :
+    ∀ (ns : List (Meta × Location)) (pv : Prev) (acc : List Object) (fuel : Nat),
+    (∀ n ∈ ns, ObjRep ch (.node n.1 n.2)) →
+    (∀ n ∈ ns, ∀ s ∈ PbfSpec.stringsOf (.node n.1 n.2), TableOk table s) →
+    (∀ n ∈ ns, SpecDefault om n.1) → SpecPrevOk pv → ns.length ≤ fuel →
+    denseLoop (specParams ch table) h fuel (specCurOf ch table om pv ns) acc =
+      some (acc.reverse ++ ns.map fun n => Object.node n.1 n.2)
+  | [], pv, acc, fuel, _, _, _, _, _ => by
+    cases fuel with
+    | zero =>
+      have : ∀ c, denseLoop (specParams ch table) h 0 c acc = some acc.reverse := fun _ => rfl
+      simp [this]
+    | succ f => rw [denseLoop_succ]; simp [specCurOf, PbfSpec.delta]
+  | (m, l) :: ns, pv, acc, fuel, hrep, htab, hdef, hpv, hf => by
+    obtain ⟨f, rfl⟩ : ∃ f, fuel = f + 1 := ⟨fuel - 1, by simp at hf; omega⟩
+    have hn := hrep (m, l) List.mem_cons_self
+    have ht := htab (m, l) List.mem_cons_self
+    have hiter := spec_denseIter_node ch hch table om pv m l ns hn ht (hdef (m, l) List.mem_cons_self) hpv
+    have hpv' := spec_prevOk_next ch table om pv m l hn.1.1 (ht m.user (by simp [PbfSpec.stringsOf])) hpv
+    have hids : ∃ idv ids', (specCurOf ch table om pv ((m, l) :: ns)).ids = idv :: ids' := ⟨_, _, rfl⟩
+    obtain ⟨idv, ids', hids⟩ := hids
+    have ih := fun acc' => spec_denseLoop_rows ch hch table om h hh ns (specNext ch table om pv (m, l)) acc' f
+      (fun n hn => hrep n (List.mem_cons_of_mem _ hn)) (fun n hn => htab n (List.mem_cons_of_mem _ hn))
+      (fun n hn => hdef n (List.mem_cons_of_mem _ hn)) hpv' (by simp at hf; omega)
+    cases h with
+    | true =>
+      rw [denseLoop_iter _ _ _ _ idv ids' hids, hiter, Option.bind_some]
+      simp only [ih]
+      simp
+    | false =>
+      rcases hh with hh | ⟨h1, h2, h3, h4, h5, h6⟩
+      · exact absurd hh (by decide)
+      · rw [denseLoop_iter_noinfo _ _ _ _ idv ids' hids (by simp [specCurOf, h1]) (by simp [specCurOf, h2])
+          (by simp [specCurOf, h3]) (by simp [specCurOf, h4]) (by simp [specCurOf, h5]) (by simp [specCurOf, h6]),
+          hiter, Option.bind_some]
+        simp only [ih]
+        simp
+
+theorem spec_default_omitOf (ch : Choices) (hist : Bool) (ns : List (Meta × Location)) :
+    ∀ n ∈ ns, SpecDefault (specOmitOf ch hist ns) n.1 := by
+  intro n hn
+  have hm : n.1 ∈ ns.map (·.1) := List.mem_map.mpr ⟨n, hn, rfl⟩
+  refine ⟨?_, ?_, ?_, ?_, ?_, ?_, ?_⟩ <;> intro ho <;>
+    simp only [specOmitOf, Bool.and_eq_true, List.all_eq_true] at ho <;>
+    have := ho.2 n.1 hm <;> simpa using this
+
+theorem spec_info_omit (ch : Choices) (table : List Bytes) (hist : Bool) (ns : List (Meta × Location)) :
+    (!(specDenseInfo ch table hist ns).isEmpty) = true ∨
+      ((specOmitOf ch hist ns).versions = true ∧ (specOmitOf ch hist ns).timestamps = true ∧
+       (specOmitOf ch hist ns).changesets = true ∧ (specOmitOf ch hist ns).uids = true ∧
+       (specOmitOf ch hist ns).userSids = true ∧ (specOmitOf ch hist ns).visibles = true) := by
+  simp only [specDenseInfo, specOmitOf]
+  generalize (ch.omitDefaults && (ns.map (·.1)).all (·.version == 0)) = b1
+  generalize (ch.omitDefaults && (ns.map (·.1)).all (·.timestamp == 0)) = b2
+  generalize (ch.omitDefaults && (ns.map (·.1)).all (·.changeset == 0)) = b3
+  generalize (ch.omitDefaults && (ns.map (·.1)).all (·.uid == 0)) = b4
+  generalize (ch.omitDefaults && (ns.map (·.1)).all (·.user.isEmpty)) = b5
+  generalize ((ch.omitDefaults || !hist) && (ns.map (·.1)).all (·.visible)) = b6
+  cases b1 <;> cases b2 <;> cases b3 <;> cases b4 <;> cases b5 <;> cases b6 <;> simp
+
+/-! ### every array entry is a uint64 -/
+
+theorem spec_delta_rep : ∀ (xs : List Int) (p : Int), DeltaRep p xs → ∀ d ∈ PbfSpec.delta p xs, IdOk d
+  | [], _, _ => by simp [PbfSpec.delta]
+  | x :: xs, p, h => by
+    intro d hd
+    simp only [PbfSpec.delta, List.mem_cons] at hd
+    rcases hd with rfl | hd
+    · exact h.1
+    · exact spec_delta_rep xs x h.2 d hd
+
+theorem spec_delta_bound (B : Int) : ∀ (xs : List Int) (p : Int), (-B < p ∧ p < B) → (∀ x ∈ xs, -B < x ∧ x < B) →
+    ∀ d ∈ PbfSpec.delta p xs, -(2 * B) < d ∧ d < 2 * B
+  | [], _, _, _ => by simp [PbfSpec.delta]
+  | x :: xs, p, hp, hx => by
+    intro d hd
+    simp only [PbfSpec.delta, List.mem_cons] at hd
+    have hx0 := hx x List.mem_cons_self
+    rcases hd with rfl | hd
+    · omega
+    · exact spec_delta_bound B xs x hx0 (fun y hy => hx y (List.mem_cons_of_mem _ hy)) d hd
+
+theorem spec_zz64_lt (ds : List Int) (h : ∀ d ∈ ds, IdOk d) : ∀ v ∈ ds.map zigzag64, v < 2 ^ 64 := by
+  intro v hv
+  obtain ⟨d, hd, rfl⟩ := List.mem_map.mp hv
+  exact zigzag_lt d (h d hd).1 (h d hd).2
+
+theorem spec_zz32_lt (ds : List Int) : ∀ v ∈ ds.map PbfSpec.zigzag32, v < 2 ^ 64 := by
+  intro v hv
+  obtain ⟨d, _, rfl⟩ := List.mem_map.mp hv
+  unfold PbfSpec.zigzag32
+  have : zigzag64 d % 2 ^ 32 < 2 ^ 32 := Nat.mod_lt _ (by decide)
+  simp only [Nat.reducePow] at *; omega
+
+theorem spec_lt64_ite (b : Bool) (L : List Nat) (h : ∀ v ∈ L, v < 2 ^ 64) : ∀ v ∈ (if b then [] else L), v < 2 ^ 64 := by
+  cases b
+  · simpa using h
+  · simp
+
+theorem spec_zz64_delta_lt (B : Int) (hB : 2 * B ≤ (2:Int) ^ 63) (xs : List Int) (hB0 : 0 < B)
+    (hx : ∀ x ∈ xs, -B < x ∧ x < B) : ∀ v ∈ (PbfSpec.delta 0 xs).map zigzag64, v < 2 ^ 64 := by
+  apply spec_zz64_lt
+  intro d hd
+  have := spec_delta_bound B xs 0 (by omega) hx d hd
+  unfold IdOk
+  omega
 
 theorem spec_denseCur_lt64 (ch : Choices) (hch : ChoicesOk ch) (table : List Bytes) (hist : Bool) (ns : List (Meta × Location))
     (hrep : DenseRep ch ns) (htab : ∀ n ∈ ns, ∀ s ∈ PbfSpec.stringsOf (.node n.1 n.2), TableOk table s) :
     CurLt64 (specDenseCur ch table hist ns) := by
-  sorry
+  obtain ⟨hobj, hdelta⟩ := hrep
+  refine ⟨?_, ?_, ?_, ?_, ?_, ?_, ?_, ?_, ?_, ?_⟩
+  · -- ids
+    apply spec_zz64_lt
+    apply spec_delta_rep
+    rw [List.map_map]
+    exact hdelta
+  · -- lats
+    apply spec_zz64_delta_lt ((2:Int) ^ 62) (by decide) _ (by decide)
+    intro x hx
+    obtain ⟨n, hn, rfl⟩ := List.mem_map.mp hx
+    exact spec_coord_bound _ _ _ hch.gran.1 hch.latOff (hobj n hn).2.1.2
+  · -- lons
+    apply spec_zz64_delta_lt ((2:Int) ^ 62) (by decide) _ (by decide)
+    intro x hx
+    obtain ⟨n, hn, rfl⟩ := List.mem_map.mp hx
+    exact spec_coord_bound _ _ _ hch.gran.1 hch.lonOff (hobj n hn).2.1.1
+  · -- tags
+    apply spec_lt64_ite
+    intro v hv
+    obtain ⟨m, hm, hv⟩ := List.mem_flatMap.mp hv
+    obtain ⟨n, hn, rfl⟩ := List.mem_map.mp hm
+    rcases List.mem_append.mp hv with hv | hv
+    · have ht := spec_tags_lookup table n.1.tags (fun s hs => htab n hn s (by
+        simp only [PbfSpec.stringsOf, List.mem_cons]; exact Or.inr hs))
+      have := (ht.2 v hv).2
+      simp only [Nat.reducePow] at *; omega
+    · simp at hv; subst hv; decide
+  · -- versions
+    apply spec_lt64_ite
+    intro v hv
+    obtain ⟨m, _, rfl⟩ := List.mem_map.mp hv
+    exact u64_lt _
+  · -- timestamps
+    apply spec_lt64_ite
+    apply spec_zz64_delta_lt ((2:Int) ^ 42) (by decide) _ (by decide)
+    intro x hx
+    obtain ⟨m, hm, rfl⟩ := List.mem_map.mp hx
+    obtain ⟨n, hn, rfl⟩ := List.mem_map.mp hm
+    have := spec_stamp_bound ch.dateGranularity n.1.timestamp hch.dgran.1 (hobj n hn).1.1.2.2.1
+    simp only [Int.reducePow] at *; omega
+  · -- changesets
+    apply spec_lt64_ite
+    apply spec_zz64_delta_lt ((2:Int) ^ 32) (by decide) _ (by decide)
+    intro x hx
+    obtain ⟨m, hm, rfl⟩ := List.mem_map.mp hx
+    obtain ⟨n, hn, rfl⟩ := List.mem_map.mp hm
+    have := (hobj n hn).1.1.2.2.2
+    simp only [Int.reducePow, Nat.reducePow] at *; omega
+  · exact spec_lt64_ite _ _ (spec_zz32_lt _)
+  · exact spec_lt64_ite _ _ (spec_zz32_lt _)
+  · -- visibles
+    apply spec_lt64_ite
+    intro v hv
+    obtain ⟨m, _, rfl⟩ := List.mem_map.mp hv
+    split <;> decide
 
 theorem spec_denseLoop (ch : Choices) (hch : ChoicesOk ch) (table : List Bytes) (hist : Bool) (ns : List (Meta × Location))
     (hrep : DenseRep ch ns) (htab : ∀ n ∈ ns, ∀ s ∈ PbfSpec.stringsOf (.node n.1 n.2), TableOk table s)
     (fuel : Nat) (hf : ns.length ≤ fuel) :
     denseLoop (specParams ch table) (!(specDenseInfo ch table hist ns).isEmpty) fuel (specDenseCur ch table hist ns) [] =
       some (ns.map fun n => Object.node n.1 n.2) := by
-  sorry
+  rw [specDenseCur_eq]
+  have hpv : SpecPrevOk {} := by
+    constructor <;> (constructor <;> decide)
+  have := spec_denseLoop_rows ch hch table (specOmitOf ch hist ns) _ (spec_info_omit ch table hist ns) ns {} [] fuel
+    hrep.1 htab (spec_default_omitOf ch hist ns) hpv hf
+  simpa using this
 
 end Osmium.Pbf
